@@ -44,12 +44,18 @@ TRUSTED = [
     "copy and must see the tables change; unreadable expressions become WOther/XOther and fail the obligations)",
     "hand-written model Cli_Model.v of cxxopts' behaviour (last occurrence wins, count(), default values, "
     "exceptions -> main()'s handlers) tied by differential testing against the rebuilt tool",
-    "oracles: cxxopts integer_parser / `stringstream >> double` readings of option values (supplied by "
-    "checks/c20.py, validated through the --debug echo), `istream >> double` on file tokens (recogniser in "
+    "option values: the integer reading is the extracted model int_parse of cxxopts' integer_parser<int> and the "
+    "double reading is supplied by checks/c20.py; both are compared with the real cxxopts parsers "
+    "(harness/c20_ip.cpp) on thousands of tokens on every run and validated through the --debug echo;",
+    "oracles: `istream >> double` on file tokens (recogniser in "
     "c20_driver.ml for the generated token classes), `ostream << double` (%g, 6 digits) applied to both sides",
     "the library itself is an oracle of cli_main (the theorems say what reaches it and what is written)",
     "extraction (ExtrOcamlBasic only) + OCaml 4.13.1 + coq/extract/c20_driver.ml (hex transport, printing)",
-    "harness/c20.cpp: includes src/cli/main.cpp with main renamed; quick tier is built -O0 without sanitizers "
+    "translate/t_cli.py shape tables: read_data and matrix_from_callback are compared as canonical token text "
+    "(layout, comments, qualifiers, names of locals, literal text, ++i/i++, braces around one statement, integer "
+    "type of a loop counter are free) with the reviewed shapes the Coq model mirrors (gen_read_check, gen_mfc)",
+    "harness/c20.cpp: includes src/cli/main.cpp with main renamed; srand() is interposed so that a case's seed "
+    "answers the tool's srand(time(NULL)) (only when C20_SEED is set: the library stream); quick tier is built -O0 without sanitizers "
     "(a sanitized build of the tool takes about 4 minutes), thorough tier with ASan/UBSan",
 ]
 
@@ -61,8 +67,8 @@ ASSUMPTIONS = [
     "methods that draw random numbers (fa, spe, ra, t-sne, manifold_sculpting, landmark variants, randomized "
     "eigensolver, VP-tree neighbours) are compared on their output under a fixed seed: the harness answers the "
     "tool's srand(time(NULL)) with the case's seed (srand interposed in the harness executable, src/cli unedited) "
-    "and seeds tapkee::random_shuffle through hook H1; the in-process reference is seeded the same way; never "
-    "combined with --precompute; OMP_NUM_THREADS=1",
+    "and seeds tapkee::random_shuffle through hook H1; the in-process reference is seeded the same way; "
+    "OMP_NUM_THREADS=1",
 ]
 
 DET_METHODS = ["lle", "locally_linear_embedding", "ltsa", "hlle", "mds", "multidimensional_scaling", "isomap",
@@ -112,22 +118,29 @@ FLT_PREFIX = re.compile(r"[ \t\r\n]*[+-]?(\d+\.?\d*|\.\d+)([eE][+-]?\d+)?")
 
 
 def int_reading(raw):
-    """cxxopts 3.1 integer_parser<int>; None = incorrect_argument_type"""
-    m = INT_RE.fullmatch(raw)
-    if not m:
+    """cxxopts 3.1.1 integer_parser<int>, the algorithm of coq/Cli_IntParse_Model.v (which is what the model
+    uses; this copy only has to agree with it: oracle_contract checks that on every run); None = throws"""
+    neg, r = (True, raw[1:]) if raw[:1] == "-" else (False, raw)
+    if r == "" or not all(c.isascii() and c.isalnum() for c in r):
         return None
-    if m.group(4):
-        return 0
-    neg, base, digits = m.group(1), 16 if m.group(2) else 10, m.group(3)
-    try:
-        v = int(digits, base)
-    except ValueError:
-        return None
-    if any(c not in "0123456789abcdefABCDEF"[: (22 if base == 16 else 10)] for c in digits):
-        return None
-    if v >= 2 ** 31:            # kept away from the wrap-around corner of the unsigned accumulation
-        return None
-    return -v if neg else v
+    hexa, v = (True, r[2:]) if (r[:2] == "0x" and len(r) > 2) else (False, r)
+    res = 0
+    for c in v:
+        if c in "0123456789":
+            d = ord(c) - 48
+        elif hexa and "a" <= c <= "f":
+            d = ord(c) - 97 + 10
+        elif hexa and "A" <= c <= "F":
+            d = ord(c) - 65 + 10
+        else:
+            return None
+        nxt = (res * (16 if hexa else 10) + d) % 2 ** 32          # unsigned int arithmetic
+        if nxt < res:                                              # `if (result > next) throw` (misses some wraps)
+            return None
+        res = nxt
+    if neg:
+        return None if res > 2 ** 31 else -res
+    return None if res > 2 ** 31 - 1 else res
 
 
 def canon(x):
@@ -135,16 +148,40 @@ def canon(x):
     return Fraction(Decimal(repr(float(x))))
 
 
+def dbl_value(raw):
+    """libstdc++ `stringstream(raw) >> double; if (!in) throw`: blanks, then the longest prefix
+    [+-] digits [. digits] [(e|E) [+-] digits] is handed to strtod, which must consume all of it"""
+    i, n = 0, len(raw)
+    while i < n and raw[i] in " \t\n\r\v\f":
+        i += 1
+    j = i
+    if j < n and raw[j] in "+-":
+        j += 1
+    digits = False
+    while j < n and raw[j] in "0123456789":
+        j, digits = j + 1, True
+    if j < n and raw[j] == ".":
+        j += 1
+        while j < n and raw[j] in "0123456789":
+            j, digits = j + 1, True
+    if not digits:
+        return None
+    if j < n and raw[j] in "eE":
+        j += 1
+        if j < n and raw[j] in "+-":
+            j += 1
+        k = j
+        while j < n and raw[j] in "0123456789":
+            j += 1
+        if j == k:
+            return None
+    v = float(raw[i:j])
+    return None if v in (float("inf"), float("-inf")) else v
+
+
 def dbl_reading(raw):
-    """`stringstream(raw) >> double; if (!in) throw` for the token classes generated here"""
-    m = FLT_PREFIX.match(raw)
-    if not m or m.end() == 0:
-        return None
-    txt = m.group(0).strip()
-    try:
-        return canon(float(txt))
-    except ValueError:
-        return None
+    v = dbl_value(raw)
+    return None if v is None else canon(v)
 
 
 def hexs(s):
@@ -205,6 +242,7 @@ class Tool:
         shutil.rmtree(self.dir, ignore_errors=True)
         os.makedirs(self.dir)
         self.n = 0
+        self.timeouts = 0
         self.env = {"OMP_NUM_THREADS": "1"}
 
     def path(self, name):
@@ -221,7 +259,14 @@ class Tool:
                 os.remove(p)
         self.last_argv = ["-i", fin, "-o", fout] + list(argv)
         env = self.env if seed is None else dict(self.env, C20_SEED=str(seed))
-        r = self.ctx.run([self.exe, "cli"] + self.last_argv, "", timeout=60, env=env)
+        if self.timeouts >= 3:
+            # a tool that hung three times is not run again (each hang costs the full timeout): the remaining
+            # cases are reported as hung without waiting
+            return {"rc": -9, "err": "not run: the tool hung on 3 earlier inputs", "out": "", "timed_out": True,
+                    "output": None, "files": {}}
+        r = self.ctx.run([self.exe, "cli"] + self.last_argv, "", timeout=30, env=env)
+        if r.timed_out:
+            self.timeouts += 1
         res = {"rc": r.rc, "err": r.err, "out": r.out, "timed_out": r.timed_out, "output": None, "files": {}}
         if os.path.exists(fout):
             res["output"] = open(fout, "rb").read().decode("latin-1")
@@ -281,10 +326,10 @@ DBL_OPTS = {"gw": "gaussian-width", "eigenshift": None, "landmark-ratio": None, 
             "fa-epsilon": None, "sne-perplexity": None, "sne-theta": None, "squishing-rate": None}
 STR_OPTS = {"m": "method", "nm": "neighbors-method", "em": "eigen-method", "cs": "computation-strategy"}
 FLAGS = ["spe-local", "precompute", "transpose-input", "transpose-output", "verbose", "benchmark"]
-INT_BAD = ["12abc", "1.5", "+5", "abc", "", "0x1g"]
+INT_BAD = ["12abc", "1.5", "+5", "abc", "", "0x1g", "2147483648", "0x"]
 INT_TOKENS = {          # values the library accepts quickly on 12 samples, boundary values, malformed text
-    "td": ["1", "2", "3", "0", "-1", "0x2"] + INT_BAD,
-    "k": ["3", "4", "5", "7", "10", "2", "0", "-7", "0x5"] + INT_BAD,
+    "td": ["1", "2", "3", "0", "-1", "0x2", "-2147483648", "2147483647"] + INT_BAD,
+    "k": ["3", "4", "5", "7", "10", "2", "0", "-7", "0x5", "4772185890", "2147483647", "-2147483649"] + INT_BAD,
     "timesteps": ["0", "1", "2", "3", "-1", "0x2"] + INT_BAD,
     "spe-num-updates": ["1", "5", "20", "100", "0x10"] + INT_BAD,
     "max-iters": ["0", "1", "2", "5", "0x3"] + INT_BAD,
@@ -639,6 +684,23 @@ def py_read(content, d):
     return rows
 
 
+def py_rows(content, d):
+    """the parsable numbers of every non-empty line (ragged or not)"""
+    rows = []
+    for line in content.split("\n"):
+        if line == "":
+            continue
+        toks = line.split(d)
+        if toks and toks[-1] == "":
+            toks = toks[:-1]
+        rows.append([float(t.strip()) for t in toks if valid_token(t)])
+    return rows
+
+
+def d_of(c):
+    return dict((n, v) for n, v in [tuple(a) for a in c["args"]] if v is not None).get("d", ",")[:1] or "\0"
+
+
 def transpose(m):
     return [list(c) for c in zip(*m)] if m else []
 
@@ -696,11 +758,9 @@ def gen_lib_case(rng, tables):
         args.append((rng.choice(["nm", "neighbors-method"]), rng.choice(["brute", "covertree", "vptree"])))   # the VP-tree draws vantage points with rand()
     if rng.random() < 0.15:
         args.append((rng.choice(["em", "eigen-method"]), rng.choice(["dense", "randomized"])))
-    uses_rand = randomised or any(v in ("vptree", "randomized") for _, v in args)
-    # --precompute changes the order of floating point operations; an iterative randomised method may amplify
-    # that, so the 1e-4 slack of the --precompute stream is only granted to the deterministic methods
-    flags = [f for f in ("transpose-input", "transpose-output") + (() if uses_rand else ("precompute",))
-             if rng.random() < 0.35]
+    # --precompute: the tables hold cb(min, max), bit for bit what the direct callbacks return (norm(a-b) and dot(a,b)
+    # are symmetric in binary64 too), so the random stream is consumed identically and randomised methods agree as well
+    flags = [f for f in ("transpose-input", "transpose-output", "precompute") if rng.random() < 0.35]
     args += [(f, None) for f in flags]
     d = rng.choice([",", ",", " ", ";"])
     if d != ",":
@@ -892,7 +952,10 @@ class Checker:
             # specification: one sample per line; pass-through returns the samples
             if rows is None:
                 if res["rc"] == 0:
-                    ctx.violation(c, "rows of unequal length but the tool exits 0 (output %r)" % (res["output"] or "")[:200])
+                    small, sres = self.shrink_ragged(c, res)
+                    ctx.violation(small, "rows of unequal length (%s values on the non-empty lines) but the tool exits 0 "
+                                  "(output %r)" % (",".join(str(len(r)) for r in py_rows(small["content"], d_of(small))),
+                                                   (sres["output"] or "")[:200]))
             elif (len(rows[0]) if (ti and rows) else len(rows)) < 2:
                 # fewer than 2 samples: the library's documented range check (target_dimension in [1, N), here
                 # --td 1) throws and the tool must report it
@@ -931,7 +994,7 @@ class Checker:
             elif mo.startswith("DONE"):
                 h = mo.split()[1]
                 text = "" if h == "-" else bytes.fromhex(h).decode("latin-1")
-                mlines = text.split("\n")[:-1] if text.endswith("\n") else text.split("\n")
+                mlines = text.split("\n")[:-1] if (text.endswith("\n") or text == "") else text.split("\n")
                 mrows = [[fmt(float(t.strip())) for t in l.split(d)] if l != "" else [] for l in mlines]
                 mtext = "".join(d.join(r) + "\n" for r in mrows)
                 if res["rc"] != 0 or res["output"] != mtext:
@@ -942,6 +1005,47 @@ class Checker:
         if cases and len(self.samples) < 6:
             self.samples.append({"kind": "file", "argv": argv_of([tuple(a) for a in cases[0]["args"]]),
                                  "content": cases[0]["content"]})
+
+    def shrink_ragged(self, c, res):
+        """a ragged file the tool accepted: plain spelling first (comma, LF, pass-through, no flags), then drop
+        lines and trailing values greedily while the file stays ragged and accepted (at most 60 extra runs)"""
+        budget = [60]
+
+        def accepted(content, args):
+            if budget[0] <= 0:
+                return None
+            budget[0] -= 1
+            if py_read(content, d_of({"args": args})) is not None:
+                return None
+            r = self.tool.cli(argv_of([tuple(a) for a in args]), content)
+            return r if (r["rc"] == 0 and not crashed(r)) else None
+
+        best, bres = c, res
+        rows = py_rows(c["content"], d_of(c))
+        plain_args = [("m", "passthru"), ("td", "1")]
+
+        def text(rs):
+            return "".join(",".join(fmt(x) for x in r) + "\n" if r else "x\n" for r in rs)
+        r = accepted(text(rows), plain_args)
+        if r is None:
+            return best, bres
+        best, bres = {"kind": "file", "mode": "ragged:shrunk", "args": plain_args, "content": text(rows)}, r
+        changed = True
+        while changed and budget[0] > 0:
+            changed = False
+            for i in range(len(rows)):
+                for cand in (rows[:i] + rows[i + 1:], rows[:i] + [rows[i][:-1]] + rows[i + 1:] if rows[i] else None):
+                    if cand is None or len(cand) < 2:
+                        continue
+                    r = accepted(text(cand), plain_args)
+                    if r is not None:
+                        rows, changed = cand, True
+                        best, bres = dict(best, content=text(cand)), r
+                        break
+                if changed:
+                    break
+        best["lengths"] = [len(r) for r in rows]
+        return best, bres
 
     # ---------------- library equivalence
     def library(self, cases):
@@ -993,9 +1097,13 @@ class Checker:
                                   "tool exits 0" % b.strip()[:200])
                 continue
             m = re.match(r"EMB (\d+) (\d+)\n", b)
-            nr = int(m.group(1))
-            body = b[m.end():].split("\n")
-            emb = [[float(x) for x in l.split(",")] if l else [] for l in body[:nr]]
+            try:
+                nr = int(m.group(1))
+                body = b[m.end():].split("\n")
+                emb = [[float(x) for x in l.split(",")] if l else [] for l in body[:nr]]
+            except (AttributeError, ValueError):
+                ctx.mismatch(c, "in-process library printed an unreadable embedding: %r" % b[:200])
+                continue
             rest = "\n".join(body[nr:])
             want = write_text(transpose(emb) if to else emb, d)
             self.nontrivial.add(case_id(c))
@@ -1014,8 +1122,12 @@ class Checker:
             elif proj == "both":
                 pm = re.search(r"PM (\d+) (\d+)\n(.*?)PV (\d+)\n(.*)", rest, re.S)
                 if pm:
-                    wpm = write_text([[float(x) for x in l.split(",")] for l in pm.group(3).split("\n") if l], d)
-                    wpv = "".join(fmt(float(l)) + "\n" for l in pm.group(5).split("\n") if l)
+                    try:
+                        wpm = write_text([[float(x) for x in l.split(",")] for l in pm.group(3).split("\n") if l], d)
+                        wpv = "".join(fmt(float(l)) + "\n" for l in pm.group(5).split("\n") if l)
+                    except ValueError:
+                        ctx.mismatch(c, "in-process library printed an unreadable projection: %r" % rest[:200])
+                        continue
                     gpm, gpv = res["files"].get("pm.txt"), res["files"].get("pv.txt")
                     if gpm != wpm and not (pre and close_text(gpm, wpm, d)):
                         why = "projection matrix file: expected %r got %r" % (wpm[:120], (gpm or "")[:120])
@@ -1055,6 +1167,59 @@ def gen_small_files(limit=None):
                 content = "\n".join(lines) + end
                 out.append({"kind": "file", "mode": "small", "args": [("m", "passthru"), ("td", "1")], "content": content})
     return out if limit is None else out[:: max(1, len(out) // limit)]
+
+
+def oracle_contract(ctx, ck, ipexe, rng, big):
+    """the readings of option values: the REAL cxxopts parsers (harness/c20_ip.cpp) against the extracted
+    int_parse (model of integer_parser<int>) and against the double reading this module supplies"""
+    toks = set(DBL_TOKENS + INT_BAD + [t for l in INT_TOKENS.values() for t in l])
+    for b in (2 ** 31 - 1, 2 ** 31, 2 ** 31 + 1, 2 ** 32 - 1, 2 ** 32, 2 ** 32 + 5, 4772185890, 429496729, 429496730,
+              477218588, 477218589, 10 ** 12):
+        toks |= {str(b), "-" + str(b), hex(b), "-" + hex(b)}
+    alph = "0123456789" * 3 + "abcdefABCDEFxX-+. eEgz"
+    for _ in range(20000 if big else 3000):
+        c = rng.random()
+        if c < 0.4:
+            toks.add("".join(rng.choice(alph) for _ in range(rng.choice([1, 2, 3, 4, 5, 8, 10, 11, 12]))))
+        elif c < 0.6:
+            toks.add(rng.choice(["", "-"]) + str(rng.randrange(0, 2 ** 34)))
+        elif c < 0.75:
+            toks.add(rng.choice(["", "-"]) + "0x%x" % rng.randrange(0, 2 ** 34))
+        else:
+            toks.add(rng.choice(["", "-", "+", " "]) + rng.choice(["%d" % rng.randrange(0, 1000), ""]) +
+                     rng.choice(["", ".", ".%d" % rng.randrange(0, 1000)]) +
+                     rng.choice(["", "", "e", "e%d" % rng.randrange(0, 30), "E-%d" % rng.randrange(0, 30), "e+", "x"]))
+    toks = sorted(toks)
+    hx = [hexs(t) or "-" for t in toks]
+    r = ctx.run(ipexe, "\n".join(hx) + "\n", timeout=120)
+    real = r.out.splitlines()
+    if r.rc != 0 or len(real) != len(toks):
+        raise vlib.BuildError("cxxopts oracle driver failed: rc=%s %s" % (r.rc, r.err[-300:]))
+    model = model_batch(ctx, ck.mexe, ["I " + h for h in hx])
+    bad = 0
+    for t, ro, mo in zip(toks, real, model):
+        ri, rd = ro.split()
+        ck.evals += 1
+        ck.count("oracle:" + ("int" if ri != "-" else "dbl" if rd != "-" else "neither"))
+        pi, pd = int_reading(t), dbl_value(t)
+        if mo.strip() != ri:
+            bad += 1
+            if bad <= 5:
+                ctx.mismatch({"kind": "oracle", "token": t}, "cxxopts integer_parser reads %r as %s, the Coq model "
+                             "int_parse as %s" % (t, ri, mo.strip()))
+        elif ("-" if pi is None else str(pi)) != ri:
+            bad += 1
+            if bad <= 5:
+                ctx.mismatch({"kind": "oracle", "token": t}, "checks/c20.py int_reading(%r) = %s, cxxopts: %s" % (t, pi, ri))
+        elif (pd is None) != (rd == "-") or (pd is not None and float.fromhex(rd) != pd):
+            bad += 1
+            if bad <= 5:
+                ctx.mismatch({"kind": "oracle", "token": t}, "`stringstream >> double` reads %r as %s, the oracle "
+                             "of checks/c20.py as %s" % (t, rd, pd))
+        elif ri != "-":
+            ck.nontrivial.add(case_id({"kind": "oracle", "token": t}))
+    if len(ck.samples) < 10:
+        ck.samples.append({"kind": "oracle", "tokens": toks[:: max(1, len(toks) // 8)][:8]})
 
 
 def help_contract(ctx, tool, tables):
@@ -1111,6 +1276,7 @@ def prepare(ctx):
     def build():
         try:
             san = not ctx.quick
+            box["ip"] = ctx.cpp("harness/c20_ip.cpp", name="c20_ip", sanitize=False)
             box["exe"] = ctx.cpp("harness/c20.cpp", name="c20", sanitize=san,
                                  extra=["-I", os.path.join(ctx.repo, "src")] + ([] if san else ["-O0"]))
         except Exception as ex:          # re-raised in the main thread
@@ -1134,6 +1300,7 @@ def prepare(ctx):
         raise box["err"] if isinstance(box["err"], vlib.BuildError) else vlib.BuildError(str(box["err"]))
     if mexe is None:
         raise box["merr"]
+    ctx.c20_ip = box.get("ip")
     return tr, tables, coq, mexe, box["exe"]
 
 
@@ -1180,6 +1347,7 @@ def run_inner(ctx):
         big = (not ctx.quick) or ctx.is_unshown()
         for b in help_contract(ctx, tool, tables):
             ctx.mismatch({"kind": "help"}, "translator vs registered option table: " + b)
+        oracle_contract(ctx, ck, ctx.c20_ip, rng, big)
         ck.wiring(gen_single_option_cases(tables))
         ck.wiring([gen_random_args(rng, tables) for _ in range(600 if big else 120)], rng)
         ck.rawargv(QUIRK_ARGVS + [gen_raw_argv(rng, tables) for _ in range(500 if big else 100)])
@@ -1203,7 +1371,9 @@ def run_inner(ctx):
         shutil.rmtree(tool.dir, ignore_errors=True)
     ctx.finish(
         evaluations=ck.evals, distinct_nontrivial=len(ck.nontrivial),
-        rule="one evaluation = one run of the rebuilt tool compared with the extracted specification and model. "
+        rule="one evaluation = one run of the rebuilt tool compared with the extracted specification and model "
+             "(oracle stream: one token through the real cxxopts parsers, the extracted int_parse and the double "
+             "oracle; non-trivial = accepted as an int). "
              "wiring: every option spelling once with a valid and a malformed value, every method name, then "
              "random option mixes (non-trivial = the specification says Run and the --debug echo was compared); "
              "files: random token matrices through passthru (non-trivial = at least 2 rows accepted by the "
